@@ -658,7 +658,10 @@ def _register_int_cells():
     def cutoff_beyond(ctx):
         n = len(ctx.y_train)
         good = _splitter(ctx, type="cutoff", window=4, cutoffs=np.array([8, 12]))
-        bad = _splitter(ctx, type="cutoff", window=4, cutoffs=np.array([8, n + 2]))
+        # (from far beyond the series down to the exact boundary: the last observation as
+        # cutoff leaves no test point)
+        bad = _splitter(ctx, type="cutoff", window=4,
+                        cutoffs=np.array([8, ctx.rng.choice([n + 2, n, n - 1])]), fh=[1])
         return dict(control=lambda: list(good().split(ctx.y_train)),
                     faulty=lambda: list(bad().split(ctx.y_train)), sig={"splitter": "cutoff"})
     cell("split/cutoff_beyond_series", "window_does_not_fit", "entry_splitter")(cutoff_beyond)
